@@ -100,6 +100,20 @@ CLAIMED["C08"] = dict(
     technique="contract-based deductive verification (bit-vector payload model, SMT) + override scan + bounded stand-in",
 )
 
+CLAIMED["C13"] = dict(
+    category="proof",
+    text="is_trivially_dead / would_be_trivially_dead / result_only_effects are extracted from /repo and proved to be EXACTLY the statement's "
+         "conjunction (results unused; not a terminator; not a symbol; effects known and each one a read or an allocation owned by the subtree); "
+         "RemoveUnusedOperations.match_and_rewrite erases only under that predicate, only attached ops, only through rewriter.erase; LiveSet "
+         "is_live/set_live/propagate_op_liveness are monotone and keep every observable op and every op with a live user. The pass-level "
+         "clauses (exact remaining ops and blocks = oracle liveness/reachability, nothing removable left, IR consistent) are decided by a "
+         "bounded stand-in on generated CFG regions for region_dce and the dce pattern pass.",
+    note="Assumed: trait declarations are truthful; get_effects bound as an opaque expression; PatternRewriter.erase / propagate_region_liveness "
+         "trusted callee contracts; delete_dead and the fixpoint loop bounded only; pyvc + z3 trusted.",
+    design="§4 C13",
+    technique="contract-based deductive verification of the removability predicates and liveness steps (SMT) + bounded stand-in with independent liveness oracle",
+)
+
 NOT_APPLICABLE = {
     "C04": "whole Printer∘Parser composition over every dialect: recursive string programs; no per-function contract within reach of the SMT-backed generator expresses it",
     "C05": "about 80 dialects of hand-written print/parse pairs and a format-string interpreter; same obstacle as C04",
@@ -113,7 +127,7 @@ NOT_APPLICABLE = {
     "C28": "result preservation of an e-graph pipeline: whole-program statement with no per-function postcondition implying it",
 }
 
-NOT_REACHED = ["C02", "C06", "C09", "C11", "C13", "C14", "C18", "C19", "C20", "C24", "C25", "C26"]
+NOT_REACHED = ["C02", "C06", "C09", "C11", "C14", "C18", "C19", "C20", "C24", "C25", "C26"]
 
 
 def main():
